@@ -161,7 +161,7 @@ structure UOut (K R T : Type) where
   /-- number of entries kept -/
   cnt : Nat
   s1 : S1 K R
-  s2 : Option (S2 K)
+  s2 : S2 K
   tol : Option T
   path : String
   fuelOk : Bool
@@ -218,7 +218,7 @@ def copyToUcol (ops : UOps K R T) (inp : UIn K R T) : UOut K R T :=
   let usub := (List.range m).foldl (fun a i => a.setIfInBounds (x0 + i) (s2.a[i]!).1) inp.usub
   { ucol := ucol, usub := usub, xusub := inp.xusub.setIfInBounds (inp.jcol + 1) ((x0 + s2.cnt : Nat) : Int),
     dense := s1.dense, sum := finSum ops inp.milu s2.sum, nnzUj := inp.nnzUj + s2.cnt, work := c.2.2.2.1, m1 := m, cnt := s2.cnt, s1 := s1,
-    s2 := if c.2.2.1.isSome then some s2 else none, tol := c.2.2.1, path := c.2.2.2.2.1, fuelOk := c.2.2.2.2.2 }
+    s2 := s2, tol := c.2.2.1, path := c.2.2.2.2.1, fuelOk := c.2.2.2.2.2 }
 
 end
 
